@@ -80,13 +80,14 @@ def gen_cases(rng, tier):
         yield {"struct": rng.choice(["hex", "hex", "hexprune", "bin", "smt", "proof", "fog"]), "seed": rng.randrange(1 << 30)}
 
 
-def classify(fn):
+def classify(fn, foreign_ok=False):
     try:
         fn()
         return "ok"
     except Exception as e:  # noqa
-        name = type(e).__name__
-        return "exn " + name if name in ("ValidationError", "ValueError", "TypeError") else "ok"
+        # fog.py raises eth_utils' ValidationError on the unchanged tree; every other entry point the library's own
+        name = common.exc_name(e, allow_foreign=foreign_ok)
+        return "exn " + name if name in ("ValidationError", "ValueError", "TypeError") or "@" in name else "ok"
 
 
 def run_case(case):
@@ -100,7 +101,7 @@ def run_case(case):
         """perform a call that must be refused; compare class with the model; check that nothing changed"""
         nonlocal refusals
         before = state_fn() if state_fn else None
-        out = classify(fn)
+        out = classify(fn, foreign_ok=ep.startswith("fog."))
         res.emit("val.check %s %d %s" % (ep, ctx, " ".join(tok(a) for a in args)), out)
         if out != "exn " + want:
             res.fail("wrong-or-no-refusal", "%s(%s) -> %s, expected %s" % (ep, ", ".join(repr(a)[:40] for a in args), out, want))
